@@ -12,7 +12,7 @@ def run(rep, tier, seed):
     ]
     rep.assumptions += [
         "composition (stated, not mechanised): model -> tree is the to_etree loop body + _listAppend + ungroom contracts (here); tree -> bytes is the writer check (bounded) + header contracts (C05, C12); bytes -> tree is the parser contract over every rendering (C02); tree -> model is the fold step + per-class constructor proofs (C03, C04, C07 groom); element text <-> value is the write-then-read contract of every element type (here, with the reader contracts of C09/C10)",
-        "assumed here, discharged by their own checks: reader contracts of DateTime/Time per layout (C09), parser over renderings (C02), header round trip (C05/C12), per-class constructor route (C03/C04)",
+        "readers of Bool/String/OneOf/Integer/Decimal (C10 contracts) are run here too; assumed here, discharged by their own checks: reader contracts of DateTime/Time per layout (C09), parser over renderings (C02), header round trip (C05/C12), per-class constructor route (C03/C04)",
         "the end-to-end statement itself - every class x varied values x every wire form x header versions - is decided by the bounded run only (contracts/roundtrip_native.py)",
     ]
     # model <-> tree, generic machinery with a symbolic attribute (L1)
@@ -20,7 +20,7 @@ def run(rep, tier, seed):
     # ungroom / groom value contracts over the ownership element model
     run_contracts(rep, "contracts.frames", tier, seed, accept_props=["C07"])
     # element text <-> value: writers and write-then-read for every element type
-    rt = lambda c: any(i in ("roundtrip", "canonical", "instant", "half-ms", "C11-lexical") for i, _ in c.ensures) or c.target.endswith(".unconvert")
+    rt = lambda c: any(i in ("roundtrip", "canonical", "instant", "half-ms", "C11-lexical") for i, _ in c.ensures) or c.target.endswith(".unconvert") or (c.target.endswith(".convert") and any(i in ("value", "identity", "none", "member") for i, _ in c.ensures))
     for m in ("contracts.types_basic", "contracts.types_decimal", "contracts.types_dt"):
         run_contracts(rep, m, tier, seed, select=rt, accept_props=["C09", "C10", "C11"])
     # the library's own writer and pretty-printer (shaped trees, symbolic data, escaping interpreted from the library source)
